@@ -35,6 +35,7 @@ type vfsNode struct {
 
 type vfsHandle struct {
 	node *vfsNode
+	pos  int
 }
 
 type vfsState struct {
@@ -476,6 +477,186 @@ func init() {
 	}
 }
 
+// ---- directory walking (filepath.Walk, os.ReadFile, zip.OpenReader) ----
+
+// relTo returns the part of p below directory dir. The directory "." contains
+// every relative path.
+func (in *Interp) relTo(p, dir Str) (Str, bool) {
+	if dir.IsConcrete() && dir.Concrete() == "." {
+		if p.Len() == 0 || in.decide(in.tt.Eq(p.At(0), mkConst(8, '/'))) {
+			return Str{}, false
+		}
+		if p.IsConcrete() && p.Concrete() == "." {
+			return Str{}, false
+		}
+		return p, true
+	}
+	if !in.strUnder(p, dir) {
+		return Str{}, false
+	}
+	return p.Slice(dir.Len()+1, p.Len()), true
+}
+
+// vfsStat classifies a path: an explicit node, or an implicit directory (some
+// node lies below it).
+func (in *Interp) vfsStat(p Str) (exists, isDir bool, n *vfsNode) {
+	if n = in.vfsFind(p); n != nil {
+		return true, n.isDir, n
+	}
+	for _, nd := range in.vfs().nodes {
+		if _, ok := in.relTo(nd.path, p); ok {
+			return true, true, nil
+		}
+	}
+	return false, false, nil
+}
+
+func (in *Interp) vfsFileInfo(p Str, isDir bool, size int) Value {
+	t, s := in.namedStruct("os", "fileStat")
+	// base name: after the last slash (paths handed to Lstat are concrete enough to find it)
+	base := p
+	for i := p.Len() - 1; i >= 0; i-- {
+		if in.decide(in.tt.Eq(p.At(i), mkConst(8, '/'))) {
+			base = p.Slice(i+1, p.Len())
+			break
+		}
+	}
+	s[fieldIndex(t, "name")] = base
+	s[fieldIndex(t, "size")] = mkConst(64, uint64(size))
+	mode := uint64(0644)
+	if isDir {
+		mode = 1<<31 | 0755 // fs.ModeDir
+	}
+	s[fieldIndex(t, "mode")] = mkConst(32, mode)
+	cell := new(Value)
+	*cell = s
+	return Iface{T: types.NewPointer(t), V: Ptr(cell)}
+}
+
+// vfsChildren lists the names of the immediate children of dir.
+func (in *Interp) vfsChildren(dir Str) []Str {
+	var out []Str
+	for _, nd := range in.vfs().nodes {
+		rest, ok := in.relTo(nd.path, dir)
+		if !ok {
+			continue
+		}
+		child := rest
+		for i := 0; i < rest.Len(); i++ {
+			if in.decide(in.tt.Eq(rest.At(i), mkConst(8, '/'))) {
+				child = rest.Slice(0, i)
+				break
+			}
+		}
+		dup := false
+		for _, o := range out {
+			if in.strSame(o, child) {
+				dup = true
+				break
+			}
+		}
+		if !dup && child.Len() > 0 {
+			out = append(out, child)
+		}
+	}
+	return out
+}
+
+func init() {
+	lstat := func(in *Interp, c *frame, fn *ssa.Function, a []Value) Value {
+		p := a[0].(Str)
+		ok, isDir, n := in.vfsStat(p)
+		if !ok {
+			return Tuple{Iface{}, in.mkErr("lstat: no such file or directory")}
+		}
+		size := 0
+		if n != nil {
+			size = len(n.data)
+		}
+		return Tuple{in.vfsFileInfo(p, isDir, size), Iface{}}
+	}
+	reg("os.Lstat", lstat)
+	reg("os.Stat", lstat)
+	// os.Open on a directory that exists only implicitly
+	openPrev := intrinsics["os.Open"]
+	reg("os.Open", func(in *Interp, c *frame, fn *ssa.Function, a []Value) Value {
+		p := a[0].(Str)
+		if in.vfsFind(p) == nil {
+			if ok, isDir, _ := in.vfsStat(p); ok && isDir {
+				return Tuple{in.newOSFile(&vfsNode{path: p, isDir: true}), Iface{}}
+			}
+		}
+		return openPrev(in, c, fn, a)
+	})
+	reg("(*os.File).Readdirnames", func(in *Interp, c *frame, fn *ssa.Function, a []Value) Value {
+		h := in.handleOf(a[0])
+		names := in.vfsChildren(h.node.path)
+		arr := make([]Value, len(names))
+		for i, n := range names {
+			arr[i] = n
+		}
+		return Tuple{Slice{A: arr, Len: len(arr), Cap: len(arr), nonNil: true}, Iface{}}
+	})
+	reg("(*os.File).Read", func(in *Interp, c *frame, fn *ssa.Function, a []Value) Value {
+		h := in.handleOf(a[0])
+		buf := a[1].(Slice)
+		if h.pos >= len(h.node.data) {
+			g := in.prog.ImportedPackage("io").Members["EOF"].(*ssa.Global)
+			return Tuple{mkConst(64, 0), in.load(in.global(g))}
+		}
+		n := len(h.node.data) - h.pos
+		if n > buf.Len {
+			n = buf.Len
+		}
+		for i := 0; i < n; i++ {
+			buf.A[buf.Off+i] = h.node.data[h.pos+i]
+		}
+		h.pos += n
+		return Tuple{mkConst(64, uint64(n)), Iface{}}
+	})
+	reg("(*os.File).WriteTo", func(in *Interp, c *frame, fn *ssa.Function, a []Value) Value {
+		h := in.handleOf(a[0])
+		dst := a[1].(Iface)
+		wr := in.methodOf(dst.T, "Write")
+		if wr == nil {
+			panic(unsupported("WriteTo: destination has no Write"))
+		}
+		rest := h.node.data[h.pos:]
+		h.pos = len(h.node.data)
+		if len(rest) == 0 {
+			return Tuple{mkConst(64, 0), Iface{}}
+		}
+		res := in.call(c, wr, []Value{dst.V, byteSliceOf(rest)}).(Tuple)
+		return Tuple{res[0], res[1]}
+	})
+	reg("os.ReadFile", func(in *Interp, c *frame, fn *ssa.Function, a []Value) Value {
+		n := in.vfsFind(a[0].(Str))
+		if n == nil || n.isDir {
+			return Tuple{Slice{}, in.mkErr("open: no such file or directory")}
+		}
+		return Tuple{byteSliceOf(append([]*Term{}, n.data...)), Iface{}}
+	})
+	reg("archive/zip.OpenReader", func(in *Interp, c *frame, fn *ssa.Function, a []Value) Value {
+		n := in.vfsFind(a[0].(Str))
+		if n == nil {
+			return Tuple{Ptr(nil), in.mkErr("open: no such file or directory")}
+		}
+		f := in.newOSFile(n)
+		pkg := in.prog.ImportedPackage("archive/zip")
+		ft := types.NewPointer(in.prog.ImportedPackage("os").Type("File").Type())
+		res := in.call(c, pkg.Func("NewReader"), []Value{Iface{T: ft, V: f}, mkConst(64, 0)}).(Tuple)
+		if e := res[1].(Iface); e.T != nil {
+			return Tuple{Ptr(nil), e}
+		}
+		rct, rcs := in.namedStruct("archive/zip", "ReadCloser")
+		rcs[fieldIndex(rct, "Reader")] = copyVal(*(res[0].(Ptr)))
+		cell := new(Value)
+		*cell = rcs
+		return Tuple{Ptr(cell), Iface{}}
+	})
+	reg("(*archive/zip.ReadCloser).Close", func(in *Interp, c *frame, fn *ssa.Function, a []Value) Value { return Iface{} })
+}
+
 // noDotDot: the path has no ".." element from position from on.
 func (in *Interp) noDotDot(p Str, from int) *Term {
 	tt := in.tt
@@ -524,3 +705,7 @@ func (in *Interp) isEOF(e Iface) bool {
 }
 
 var _ = fmt.Sprintf
+
+func init() {
+	harnessAPI["vFSChdir"] = func(in *Interp, c *frame, fn *ssa.Function, a []Value) Value { return nil }
+}
